@@ -163,6 +163,8 @@ func genCNF(t *rapid.T) Case {
 				c.Clauses = append(c.Clauses, []int{v})
 			}
 		}
+	case 3: // deep parse-time propagation, partly decided
+		c.N, c.Clauses = gen.PropagationChain(t, 2, 10)
 	default: // sparse formulas: many models, several rounds of blocking
 		c.N, c.Clauses = gen.SmallCNF(t, gen.CNFOpts{MinN: 1, MaxN: 10, MaxRatio: 2, MaxLen: 4, AllowEmpty: true, AllowDup: true, AllowUnit: true, UnusedVarSlack: true})
 	}
